@@ -485,7 +485,9 @@ fn lattice_api(out: &mut Out, rng: &mut Rng, pool: &[(ReplicatedValue, &'static 
         if vm(&a.merge(&b)) != vm(&b.merge(&a)) || vm(&a.merge(&a)) != vm(&a) || vm(&a.merge(&b.merge(&c))) != vm(&a.merge(&b).merge(&c)) {
             out.violation("C07:vclock:merge-law", "VectorClock::merge is not idempotent / commutative / associative on these clocks", json!({"a": smap_text(&ma), "b": smap_text(&mb)}));
         }
-        if (a.happens_before(&b) && b.happens_before(&a)) || a.happens_before(&a) || a.concurrent_with(&b) != b.concurrent_with(&a) || m.happens_before(&a) || m.happens_before(&b) {
+        // an operand happens before the merge or equals it (ties comparison to merge)
+        let le = |x: &VectorClock, y: &VectorClock| x == y || x.happens_before(y);
+        if (a.happens_before(&b) && b.happens_before(&a)) || a.happens_before(&a) || a.concurrent_with(&b) != b.concurrent_with(&a) || m.happens_before(&a) || m.happens_before(&b) || !le(&a, &m) || !le(&b, &m) {
             out.violation("C07:vclock:order-law", "happens_before / concurrent_with violate irreflexivity, asymmetry, symmetry or 'an operand never exceeds the merge'", json!({"a": smap_text(&ma), "b": smap_text(&mb)}));
         }
     }
